@@ -242,6 +242,7 @@ theorem atomSem_eq_atomL (eol : Eol) (inp : Array UInt8) (a : Atom) (ha : a.list
   | everything => simp [Atom.listOnly] at ha
   | require _ => simp [Atom.listOnly] at ha
   | maxDigits _ => simp [Atom.listOnly] at ha
+  | repOne _ _ _ => simp [Atom.listOnly] at ha
 
 /-! ### Suffix property and the two directions of the correspondence -/
 
